@@ -27,11 +27,11 @@ ITEM = {1: ("T", alpha.I_AX, alpha.I_AY, alpha.L_PLAIN), 2: ("Q", alpha.I_AX, al
 ITEM[3] = ITEM[2]
 
 
-def hdr(lt: int, delim: bool, ns: bool, gen: bool, star: bool, name: int, a: int, b: int, c: int) -> bool:
+def hdr(lt: int, delim: bool, ns: bool, gen: bool, star: bool, name: int, a: int, b: int, c: int, ver: int) -> bool:
     """
-    pre: 0 <= lt < 8 and 0 <= name < 5 and 0 <= a < 4 and 0 <= b < 5 and 0 <= c < 4
+    pre: 0 <= lt < 8 and 0 <= name < 5 and 0 <= a < 4 and 0 <= b < 5 and 0 <= c < 4 and 0 <= ver <= 2
     pre: (lt == P["lt"] or P["lt"] < 0) and (name == P["name"] or P["name"] < 0) and ((a == 0 and b == 3 and c == 2) or P["sizes"])
-    pre: (not P["sizes"]) or (delim and not gen and not star)
+    pre: (not P["sizes"]) or (delim and not gen and not star and ver == 0)
     post: _
     """
     phys, integ = P["phys"], P["integ"]
@@ -40,15 +40,16 @@ def hdr(lt: int, delim: bool, ns: bool, gen: bool, star: bool, name: int, a: int
         sn = alpha.pick(name, NAMES)
         nm, pf, dt = alpha.pick(a, SZ_NAMES), alpha.pick(b, SZ_PRE), alpha.pick(c, SZ_DT)
         try:
+            vv = alpha.pick(ver, [None, 1, 2])   # the caller may pass a version explicitly: the header must not follow it
             opts = pj.make_options(phys, delimited=bool(delim), logical=ltv, ns=bool(ns), stream_name=sn, names=nm, prefixes=pf,
-                                   datatypes=dt, generalized=bool(gen), rdf_star=bool(star))
+                                   datatypes=dt, generalized=bool(gen), rdf_star=bool(star), version=vv)
             if integ == "generic":
                 data = pj.gen_serialize([ITEM[phys]], phys, opts, entry="stream_frames_sink")
             else:
                 data = pj.rdf_serialize([ITEM[phys]], phys, opts, entry="graph_serialize")
         except Exception:  # noqa: BLE001
             # refused on the writer side: must be exactly the forbidden physical/logical pairs
-            return fin(M, (not R.types_compatible(phys, ltv)) and not P.get("twin"), lt=lt, delim=delim, ns=ns, gen=gen, star=star, name=name, a=a, b=b, c=c)
+            return fin(M, (not R.types_compatible(phys, ltv)) and not P.get("twin"), lt=lt, delim=delim, ns=ns, gen=gen, star=star, name=name, a=a, b=b, c=c, ver=ver)
         ok = R.types_compatible(phys, ltv)
         po, frames = get_options_and_frames(io.BytesIO(data))
         with notrace():
@@ -70,7 +71,7 @@ def hdr(lt: int, delim: bool, ns: bool, gen: bool, star: bool, name: int, a: int
             ok = False
     except Exception:  # noqa: BLE001
         ok = False
-    return fin(M, ok, lt=lt, delim=delim, ns=ns, gen=gen, star=star, name=name, a=a, b=b, c=c)
+    return fin(M, ok, lt=lt, delim=delim, ns=ns, gen=gen, star=star, name=name, a=a, b=b, c=c, ver=ver)
 
 
 def matrix(phys: int, lt: int) -> bool:
